@@ -32,7 +32,11 @@ ASSUMPTIONS = [
     'C01-unsigned-fill covers them)',
     'value tolerance 16*eps of the result dtype',
 ]
-HOOKS = ['binop.return', 'eval.return', 'mask.return', 'oracle.compare']
+HOOKS = ['binop.return', 'eval.return', 'pncexpr.return', 'mask.return',
+         'mask_vals.return', 'oracle.compare']
+FACETS_REQUIRED = {t: ['via:dunder', 'via:pncbo', 'via:eval', 'via:pncexpr',
+                       'via:mask', 'via:mask_vals']
+                   for t in ('quick', 'thorough')}
 MIN_DISTINCT = {'quick': 800, 'thorough': 10000}
 N = {'quick': 2500, 'thorough': 40000}
 OPS = {'+': o.add, '-': o.sub, '*': o.mul, '/': o.truediv, '//': o.floordiv,
@@ -75,8 +79,14 @@ def gen(rng, idx, tier, seed):
         spec['kw'] = kw
         spec['coords'] = bool(rng.random() < 0.25)
         spec['inject'] = bool(rng.random() < 0.4)
+        if idx % 3 == 2 and 'where' not in kw:
+            # command-line string form: one predicate per mask_vals call
+            spec['via'] = 'mask_vals'
+            spec['coords'] = False
     else:
         spec['nassign'] = int(rng.integers(1, 4))
+        if idx % 3 == 0:
+            spec['via'] = 'pncexpr'
     return spec
 
 
@@ -277,14 +287,21 @@ def run_eval(spec, res):
     except Exception:
         dom = False
     copyall = bool(rng.random() < 0.5)
+    via = spec.get('via', 'eval')
     try:
-        out = f.eval(expr, copyall=copyall)
+        if via == 'pncexpr':
+            from PseudoNetCDF.core._functions import pncexpr
+            copyall = True
+            out = pncexpr(expr, f)
+            res.hook('pncexpr.return')
+        else:
+            out = f.eval(expr, copyall=copyall)
     except Exception as e:
         res.hook('eval.return')
         res.ev(digest([spec, expr]), True, 'eval-raised')
         if dom:
-            res.viol('in-domain-raise:eval:%s' % type(e).__name__,
-                     'eval(%r) raised %r' % (expr, e), expr=expr)
+            res.viol('in-domain-raise:%s:%s' % (via, type(e).__name__),
+                     '%s(%r) raised %r' % (via, expr, e), expr=expr, via=via)
         return
     res.hook('eval.return')
     if not dom:
@@ -313,10 +330,12 @@ def run_eval(spec, res):
                 problems += snapshot.check_var(
                     snapshot.snap_var(out.variables[k]), k, dims=vs.dims,
                     data=vs.data, mask=vs.mask, dtype=vs.dtype)
-    res.ev(digest([spec, expr]), True, ['eval', 'nassign:%d' % len(targets)])
+    res.ev(digest([spec, expr]), True, ['eval', 'via:' + via,
+                                       'nassign:%d' % len(targets)])
     if problems:
-        res.viol('wrong-eval', 'eval(%r): %s' % (expr, '; '.join(
-            problems[:5])), expr=expr)
+        res.viol('wrong-eval' if via == 'eval' else 'wrong-eval:' + via,
+                 '%s(%r): %s' % (via, expr, '; '.join(problems[:5])),
+                 expr=expr, via=via)
 
 
 def run_mask(spec, res):
@@ -358,8 +377,24 @@ def run_mask(spec, res):
             exp[k] = refmask.ref_mask(vs.data, vs.mask, refkw, where=w)
         except Exception:
             dom = False
+    via = spec.get('via', 'mask')
     try:
-        out = f.mask(coords=spec['coords'], **kw)
+        if via == 'mask_vals':
+            from PseudoNetCDF.core import _functions as fnmod
+            # the string form has its own notion of coordinate variables
+            # (a fixed list of names); variables that are coordinates under
+            # only one of the two notions are not judged
+            skip = (set(fnmod._metakeys) | coords) - (
+                set(fnmod._metakeys) & coords)
+            coords = set(fnmod._metakeys) & set(before.vars)
+            out = f
+            for pk in [k for k in refmask.ORDER if k in refkw]:
+                out = fnmod.mask_vals(out, '%s,%s' % (
+                    pk, '' if pk == 'invalid' else repr(refkw[pk])))
+                res.hook('mask_vals.return')
+        else:
+            skip = set()
+            out = f.mask(coords=spec['coords'], **kw)
     except Exception as e:
         res.hook('mask.return')
         res.ev(digest(spec), True, 'mask-raised')
@@ -381,6 +416,8 @@ def run_mask(spec, res):
             continue
         got = snapshot.snap_var(out.variables[k])
         res.hook('oracle.compare')
+        if k in skip:
+            continue
         if k in coords and not spec['coords']:
             problems += ['coordinate ' + x for x in snapshot.check_var(
                 got, k, dims=vs.dims, data=vs.data, mask=vs.mask)]
@@ -393,11 +430,13 @@ def run_mask(spec, res):
             badvars.append([k, vs.dtype, vs.masked_type])
         problems += p
     res.ev(digest(spec), judged > 0,
-           ['mask:' + '+'.join(sorted(spec['kw']))])
+           ['mask:' + '+'.join(sorted(spec['kw'])), 'via:' + via])
     if problems:
-        res.viol('wrong-mask', 'mask(%s, coords=%s): %s' % (
-            spec['kw'], spec['coords'], '; '.join(problems[:5])),
-            kw=spec['kw'], badvars=badvars)
+        res.viol('wrong-mask' if via == 'mask' else 'wrong-mask:' + via,
+                 '%s(%s, coords=%s): %s' % (
+                     via, spec['kw'], spec['coords'],
+                     '; '.join(problems[:5])),
+                 kw=spec['kw'], badvars=badvars, via=via)
 
 
 def run(spec, res):
